@@ -1095,6 +1095,95 @@ def dotted_cases(rng: random.Random, quick: bool) -> List[Dict[str, Any]]:
     return out
 
 
+# ------------------------------------------------------------------------------------------
+# member access (round 3): field selection `e.f` is implemented twice with DIFFERENT container primitives — the
+# interpreter's member_dot uses `e["f"]` / `name in container`, the transpiled text calls `e.get('f')` (MapType.get,
+# NameContainer.get).  Whether the two primitives agree depends on the member's VALUE, not on the expression: a lookup
+# written with a sentinel (`if value is None`, `value or default`, `if not value`) is right for every ordinary entry and
+# every missing one and wrong for a present entry that is null / false / 0 / empty.  So every kind of container is
+# selected from for every kind of member value — each CEL type's empty / zero inhabitant and an ordinary one, and a
+# missing member — in every kind of context.
+# ------------------------------------------------------------------------------------------
+
+_CT = "celpy.celtypes."
+# field name -> (python constructor, CEL literal spelling or None, JSON text or None)
+SEL_VALUES: Dict[str, Any] = {
+    "nul": ("None", "null", "null"),
+    "bf": (_CT + "BoolType(False)", "false", "false"),
+    "bt": (_CT + "BoolType(True)", "true", "true"),
+    "iz": (_CT + "IntType(0)", "0", "0"),
+    "ip": (_CT + "IntType(7)", "7", "7"),
+    "uz": (_CT + "UintType(0)", "0u", None),
+    "dz": (_CT + "DoubleType(0.0)", "0.0", "0.0"),
+    "dn": (_CT + "DoubleType(float('nan'))", None, None),
+    "se": (_CT + "StringType('')", "''", '""'),
+    "sx": (_CT + "StringType('x')", "'x'", '"x"'),
+    "be": (_CT + "BytesType(b'')", "b''", None),
+    "le": (_CT + "ListType([])", "[]", "[]"),
+    "ln": (_CT + "ListType([None])", "[null]", "[null]"),
+    "me": (_CT + "MapType({})", "{}", "{}"),
+    "mn": (_CT + "MapType({" + _CT + "StringType('k'): None})", "{'k': null}", '{"k": null}'),
+    "d0": (_CT + "DurationType('0s')", "duration('0s')", None),
+    "t0": (_CT + "TimestampType('1970-01-01T00:00:00Z')", "timestamp('1970-01-01T00:00:00Z')", None),
+}
+SEL_MISSING = "nope"          # a member no container has
+
+
+def _sel_map_ctor(names: List[str]) -> str:
+    return _CT + "MapType({" + ", ".join(f"{_CT}StringType('{n}'): {SEL_VALUES[n][0]}" for n in names) + "})"
+
+
+def sel_binds() -> Dict[str, str]:
+    names = list(SEL_VALUES)
+    jnames = [n for n in names if SEL_VALUES[n][2] is not None]
+    b = {"sm": _sel_map_ctor(names),
+         "sn": _CT + "MapType({" + _CT + "StringType('inner'): " + _sel_map_ctor(names) + "})",
+         "sl": _CT + "ListType([" + _sel_map_ctor(names) + "])",
+         "sj": "celpy.json_to_cel(__import__('json').loads('{" + ", ".join(f'"{n}": {SEL_VALUES[n][2]}' for n in jnames) + "}'))"}
+    for n in names:
+        b["sns." + n] = SEL_VALUES[n][0]          # a namespace of dotted activation names
+    return b
+
+
+# how the container is reached (@F = the selected field: literal maps hold that one entry and an ordinary one)
+SEL_CONTAINERS = {"var": "sm", "nested": "sn.inner", "elem": "sl[0]", "json": "sj", "dyn": "dyn(sm)", "cond": "(bt_ ? sm : sn)",
+                  "lit": "{'@F': @V, 'other': 1}", "ns": "sns"}
+SEL_TEMPLATES = ["@M.@F", "@M.@F == null", "@M.@F == @M.@F", "[@M.@F]", "{'k': @M.@F}", "@M.@F == null ? 'null' : 'other'",
+                 "true || @M.@F == 1", "@M.@F == 1 || true", "@M.@F == null && true", "false || @M.@F == null",
+                 "[@M].exists(e, e.@F == null)", "[@M, @M].map(e, e.@F)", "[@M].filter(e, e.@F == e.@F)", "[1, 2].all(i, @M.@F == null || i > 0)",
+                 "type(@M.@F)", "dyn(@M.@F)", "size([@M.@F])", "@M.@F.k"]
+# the same member by index (maps only: the interpreter reaches `e.f` and `e['f']` by the same primitive)
+SEL_TEMPLATES_IDX = ["@M['@F']", "@M.@F == @M['@F']", "'@F' in @M"]
+# what a namespace of dotted names supports (it is not a CEL value: no index, no macro over it)
+SEL_TEMPLATES_NS = [t for t in SEL_TEMPLATES if "[@M" not in t]
+
+
+def select_cases(rng: random.Random, quick: bool) -> List[Dict[str, Any]]:
+    out = []
+    binds = sel_binds()
+    binds["bt_"] = _CT + "BoolType(True)"
+    for cname, cexpr in SEL_CONTAINERS.items():
+        for f in list(SEL_VALUES) + [SEL_MISSING]:
+            lit = SEL_VALUES[f][1] if f in SEL_VALUES else None
+            if cname == "lit":
+                if f == SEL_MISSING:
+                    m = "{'other': 1}"
+                elif lit is None:
+                    continue
+                else:
+                    m = cexpr.replace("@V", lit)
+            elif cname == "json" and f in SEL_VALUES and SEL_VALUES[f][2] is None:
+                continue
+            else:
+                m = cexpr
+            pool = SEL_TEMPLATES_NS if cname == "ns" else SEL_TEMPLATES + SEL_TEMPLATES_IDX
+            tmpls = (["@M.@F"] + rng.sample(pool[1:], 2)) if quick else pool
+            for t in tmpls:
+                src = t.replace("@M", m).replace("@F", f)
+                out.append({"kind": "text", "src": src, "binds": dict(binds), "package": None, "stream": f"select:{cname}:{f}"})
+    return out
+
+
 class FragGen:
     """expressions inside the Lean driver's fragment: int/bool/string/list/null values, all operators, ?: || &&,
     list literals, index, size, the five macros, dyn — well-typed and ill-typed"""
